@@ -1,7 +1,7 @@
 """C02 - message codec byte-exact; class dispatch; AVP search.
 
 E1 against refcodec: header field space, every registered code x R bit, 1,885 bodies over a
-12-AVP alphabet, whole-dictionary messages, nesting chains, a 64 KiB message, and every
+13-AVP alphabet, whole-dictionary messages, nesting chains, a 64 KiB message, and every
 ordering of 1..3 distinct search paths on freshly decoded messages.
 """
 from __future__ import annotations
@@ -41,6 +41,7 @@ def body_alphabet():
         rc.addr(257, "2001:db8::1"),                        # 9 address
         rc.enc_avp(1, b"", M, 0),                           # 10 empty payload: an AVP of exactly 8 bytes
         rc.grouped(456, [rc.u32(432, 1), rc.grouped(437, [])]),   # 11 group whose last child is an empty 8-byte group
+        rc.enc_avp(9_000_002, b"", M, 10415),               # 12 vendor AVP (no dictionary type) with an empty data part: exactly 12 bytes
     ]
 
 
@@ -474,12 +475,12 @@ def run(tier):
         rep.sample({"two_threads": name, "schedules": r["executions"], "distinct_outcomes": len(r["outcomes"]), "capped": r["capped"]})
     rep.cov["schedules"] = nrace
     total += nrace
-    rep.sample({"bodies": nb, "body_alphabet": 10, "search_paths": [list(map(list, p)) for p in PATHS[:6]]})
+    rep.sample({"bodies": nb, "body_alphabet": len(body_alphabet()), "search_paths": [list(map(list, p)) for p in PATHS[:6]]})
     rep.sample({"example": "decode enc_msg(272, flags=0x10, ...) -> header fields equal the wire; find_avps((456,0),(437,0),(279,0),(268,0))"})
     rep.cov.update({"evaluations": total, "distinct_nontrivial": total, "exhaustive": True,
                     "rule": "header: every field over its boundary set alone (all 256 flag octets, every registered code, boundary ids) + "
                             "3^6 product; dispatch: every registered code (+1 run-time registered, unknown codes) x 6 flag octets; bodies: all "
-                            "1,111 sequences of length 0..3 over a 12-AVP alphabet x {unknown code, typed code plain_msg, untyped code}; the "
+                            "2,380 sequences of length 0..3 over a 13-AVP alphabet x {unknown code, typed code plain_msg, untyped code}; the "
                             "whole dictionary in 40-AVP messages, chains to depth 6, a 64 KiB message; search: every ordering of 1..3 distinct "
                             "paths from the induced path alphabet (3-permutations: all when <= 9 paths, else a fixed fifth) on a fresh decode"})
     rep.assumptions += ["AVP order identity and byte-exact re-encoding are required of generic decodes only (typed classes document regrouping)"]
